@@ -856,9 +856,10 @@ impl Engine for C04 {
             "corpus with one token of the full alphabet inserted at one site".into(),
             p_ins(if thorough { 100_000 } else { 40 }),
         ));
-        spaces.push(("programs whose import names something unusual (22 paths x 3 forms)".into(), p_imports()));
+        spaces.push(("programs whose import names something unusual (28 paths x 3 forms)".into(), p_imports()));
         spaces.push(("corpus programs cut after each token (end of text, or one line break, right after it)".into(), p_prefix()));
         spaces.push(("number literals at and around the ends of the integer types, in five places".into(), p_numbers()));
+        spaces.push(("ordered pairs of generated expressions of <= 2 constructors side by side, unparenthesised, in six list positions".into(), p_pairs()));
         spaces.push(("nesting families".into(), p_nest(thorough)));
         // Parseable programs: the single-module members of the program spaces of C01/C02
         // (every expression tree of <= k constructors in every one-hole context, the
